@@ -7,8 +7,9 @@ import z3
 from . import smt
 
 
-def check_obligation(ex, ob, timeout_ms=10000):
-    """Returns (status, seconds, detail): status in proved | refuted | unknown."""
+def check_obligation(ex, ob, timeout_ms=10000, mode="all"):
+    """Returns (status, seconds, detail): status in proved | refuted | unknown.
+    mode: "all" (stage 1 then fresh-process stages), "fast" (stage 1 only), "external" (fresh-process stages only)."""
     from .rewrite import HeapRewriter
     rw = HeapRewriter(ob.pc, getattr(ex.model.decl, "REGION_ATTRS", []))
     pc = [rw.rw(f) for f in ob.pc]
@@ -24,22 +25,60 @@ def check_obligation(ex, ob, timeout_ms=10000):
         # with quantified axioms z3 cannot certify `sat`; the guard only fails on a definite `unsat`
         return ("refuted" if r == z3.unsat else "proved", dt, f"requires not contradictory ({r})")
     t0 = time.time()
-    last = None
-    stages = (True,) if z3.is_false(goal) else (True, False)  # goal `False` = "this path must be infeasible": the quick stage decides
-    for fast in stages:
-        s = _solver(2000 if fast else timeout_ms, fast)
-        s.add(*ax)
-        s.add(*pc)
-        s.add(z3.Not(goal))
-        r = s.check()
-        if r == z3.unsat:
-            return "proved", time.time() - t0, "z3 e-matching" + (" (fast cfg)" if fast else " (auto cfg)")
-        last = (r, s)
-    r, s = last
-    dt = time.time() - t0
+    # stage 1: in-process, fixed configuration, short budget (decides the large majority of obligations)
+    s = _solver(2000 if mode != "external" else 1, True)
+    s.add(*ax)
+    s.add(*pc)
+    s.add(z3.Not(goal))
+    r = s.check() if mode != "external" else z3.unknown
+    if r == z3.unsat:
+        return "proved", time.time() - t0, "z3 e-matching (fast cfg)"
     if r == z3.sat:
-        return "refuted", dt, model_summary(s.model())
-    return "unknown", dt, s.reason_unknown()
+        return "refuted", time.time() - t0, model_summary(s.model())
+    if z3.is_false(goal) or mode == "fast":
+        # goal `False` = "this path must be infeasible": the quick stage decides
+        return "unknown", time.time() - t0, s.reason_unknown() if mode != "external" else "not tried"
+    # stages 2, 3: the same query in FRESH solver processes (the in-process context carries the term/symbol history of every
+    # earlier query of this function, which makes E-matching verdicts flip between runs; a fresh process does not)
+    detail = s.reason_unknown() if mode != "external" else ""
+    for cmd, label in external_solvers(timeout_ms):
+        res = run_external(s, cmd, timeout_ms)
+        if res == "unsat":
+            return "proved", time.time() - t0, f"{label} (fresh process)"
+        if res == "sat":
+            return "refuted", time.time() - t0, f"{label}: sat"
+        detail = f"{label}: {res}"
+    return "unknown", time.time() - t0, detail
+
+
+def external_solvers(timeout_ms):
+    import shutil
+    sec = max(1, timeout_ms // 1000)
+    out = []
+    for exe, label, t in (("z3-new", "z3 5.1 cli", sec), ("/usr/bin/z3", "z3 4.8.12 cli", min(sec, 5))):
+        path = shutil.which(exe)
+        if path:
+            out.append(([path, f"-T:{t}", "smt.mbqi=false"], label))
+    return out
+
+
+def run_external(solver, cmd, timeout_ms):
+    import os
+    import subprocess
+    import tempfile
+    fd, path = tempfile.mkstemp(suffix=".smt2", prefix="pyvc_")
+    try:
+        with os.fdopen(fd, "w") as f:
+            f.write("(set-logic ALL)\n" + solver.to_smt2())
+        out = subprocess.run(cmd + [path], capture_output=True, text=True, timeout=timeout_ms / 1000 + 10).stdout.strip().splitlines()
+        return out[0].strip() if out else "unknown"
+    except Exception:  # noqa: BLE001
+        return "unknown"
+    finally:
+        try:
+            os.unlink(path)
+        except OSError:
+            pass
 
 
 def _solver(timeout_ms, fast):
